@@ -591,3 +591,98 @@ func TestAlgebraExhaustive(t *testing.T) {
 	P.SetExtra("algebra_expressions", n)
 	P.Sample(map[string]any{"algebra": "all not/and/or expressions of depth <= 2 over leaves T,F,N,O x extra operand; quantifier forms", "count": n})
 }
+
+// ---------- reuse and concurrency of one policy object ----------
+
+type ReuseCase struct {
+	Pol        pol.Policy `json:"pol"`
+	Datas      []val.V    `json:"datas"`
+	Goroutines int        `json:"goroutines"`
+}
+
+// runReuse: a built policy is a value; evaluating it on d1, then d2, then d1
+// again (and from several goroutines at once) must give what a freshly built
+// policy gives on each datum.
+func runReuse(c *h.Ctx, rc ReuseCase) {
+	shared, err := rc.Pol.Build(true)
+	if err != nil {
+		return
+	}
+	type r3 struct {
+		m, p bool
+		s    string
+	}
+	fresh := make([]r3, len(rc.Datas))
+	nodes := make([]ipld.Node, len(rc.Datas))
+	for i, d := range rc.Datas {
+		nodes[i] = d.Node()
+		f, err := rc.Pol.Build(true)
+		if err != nil {
+			return
+		}
+		var x r3
+		if pn, _, _ := h.Try(func() {
+			x.m, _ = f.Match(nodes[i])
+			x.p, _ = f.PartialMatch(nodes[i])
+			x.s = f.String()
+		}); pn {
+			return // crashes are C09's
+		}
+		fresh[i] = x
+	}
+	order := []int{}
+	for round := 0; round < 3; round++ {
+		for i := range rc.Datas {
+			order = append(order, (i+round)%len(rc.Datas))
+		}
+	}
+	check := func(where string) {
+		for _, i := range order {
+			m, _ := shared.Match(nodes[i])
+			p, _ := shared.PartialMatch(nodes[i])
+			if m != fresh[i].m || p != fresh[i].p || shared.String() != fresh[i].s {
+				c.Fail("C11/reuse/"+where, "a policy object evaluated repeatedly gives (%v,%v) on datum %d where a freshly built one gives (%v,%v)\npolicy %s", m, p, i, fresh[i].m, fresh[i].p, show(rc.Pol))
+			}
+		}
+	}
+	check("sequential")
+	if rc.Goroutines > 1 {
+		type fl struct{ i int; m, p bool }
+		bad := make(chan fl, 16)
+		if pv := h.Concurrently(rc.Goroutines, func(g int) {
+			for k := range order {
+				i := order[(k+g)%len(order)]
+				m, _ := shared.Match(nodes[i])
+				p, _ := shared.PartialMatch(nodes[i])
+				_ = shared.String()
+				if m != fresh[i].m || p != fresh[i].p {
+					select {
+					case bad <- fl{i, m, p}:
+					default:
+					}
+				}
+			}
+		}); pv != nil {
+			c.Fail("C11/panic", "concurrent Match panicked: %v", pv)
+		}
+		close(bad)
+		for b := range bad {
+			c.Fail("C11/reuse/concurrent", "concurrent evaluation of a shared policy gives (%v,%v) on datum %d, alone (%v,%v)\npolicy %s", b.m, b.p, b.i, fresh[b.i].m, fresh[b.i].p, show(rc.Pol))
+		}
+	}
+	if len(rc.Pol) > 0 && len(rc.Datas) >= 2 {
+		c.P.NonTrivial([]any{"reuse", val.FromNode(rc.Pol.IPLD()).String(), len(rc.Datas), rc.Goroutines}, map[string]any{"mode": "reuse", "policy": rc.Pol, "datas": len(rc.Datas), "goroutines": rc.Goroutines})
+	}
+}
+
+var reuseProp = h.Define(P, "reuse", func(t *rapid.T) ReuseCase {
+	d := pol.GenData(t, "d0")
+	rc := ReuseCase{Pol: pol.Gen(t, d, pol.GenCfg{Depth: 3, MaxStmt: 3}, "p"), Datas: []val.V{d}, Goroutines: rapid.IntRange(1, 6).Draw(t, "goroutines")}
+	n := rapid.IntRange(1, 3).Draw(t, "ndatas")
+	for i := 0; i < n; i++ {
+		rc.Datas = append(rc.Datas, pol.GenData(t, fmt.Sprintf("d%d", i+1)))
+	}
+	return rc
+}, runReuse)
+
+func TestReuse(t *testing.T) { reuseProp.Check(t) }
